@@ -29,3 +29,16 @@ package types
 //@   ensures p.MetaStressed.HasValue == (old(p.MetaStressed.HasValue) || (key == MetaStressed && isBool(value)))
 //@   ensures p.MetaStressed.Value == ite(key == MetaStressed && isBool(value), anyBool(value), old(p.MetaStressed.Value))
 //@   modifies p.MetaSignalType, p.MetaTraceID, p.MetaAnnotationType, p.MetaRefineryIncomingUserAgent, p.MetaRefineryLocalHostname, p.MetaRefineryReason, p.MetaRefinerySendReason, p.MetaRefinerySampleKey, p.MetaSpanEventCount, p.MetaSpanLinkCount, p.MetaSpanCount, p.MetaEventCount, p.MetaRefineryOriginalSampleRate, p.MetaRefineryFinalSampleRate, p.MetaRefineryProbe, p.MetaRefineryRoot, p.MetaStressed, p.memoizedFields
+
+//@ contract types.RouterType.IsIncoming inline
+//@ contract types.(*nullableBool).Set inline
+
+// ExtractMetadata fills the cached meta.* fields from the payload; it touches nothing else.
+// (Its functional contract is C21's business.)
+//@ assume types.(*Payload).ExtractMetadata
+//@   modifies p.MetaSignalType, p.MetaTraceID, p.MetaAnnotationType, p.MetaRefineryProbe, p.MetaRefineryRoot, p.MetaRefineryIncomingUserAgent, p.MetaRefineryLocalHostname, p.MetaStressed, p.MetaRefineryReason, p.MetaRefinerySendReason, p.MetaSpanEventCount, p.MetaSpanLinkCount, p.MetaSpanCount, p.MetaEventCount, p.MetaRefineryOriginalSampleRate, p.MetaRefineryFinalSampleRate, p.MetaRefinerySampleKey, p.hasExtractedMetadata, p.memoizedFields, p.missingFields
+
+//@ assume types.(*Event).GetDataSize
+//@   modifies e.dataSize
+//@ assume types.(*Span).GetDataSize
+//@   modifies sp.Event.dataSize
